@@ -32,6 +32,9 @@ pub struct QuakeState {
     pub players: Vec<QPlayer>,
 }
 
+/// The largest status reply (Quake 3's MAX_MSGLEN; a datagram can carry it).
+pub const MAX_REPLY: usize = 16_384;
+
 const VAL_EXCL: &[char] = &['\\', '\n'];
 const TOKEN_EXCL: &[char] = &['\\', '\n', ' ', '"'];
 
